@@ -188,7 +188,12 @@ func TestC14Rapid(t *testing.T) {
 			}
 			e = c
 		} else {
-			e = g.AxisPath(ctx, xgen.PathOpts{MaxSteps: 3, AbsShare: 4, DSlash: 2})
+			if rapid.Bool().Draw(rt, "withpreds") {
+				// predicates put name tests next to operator names, brackets and commas (the scanner's look-ahead)
+				e = g.AxisPath(ctx, xgen.PathOpts{MaxSteps: 3, PredDepth: 2, PredShare: 5, AbsShare: 4, DSlash: 2})
+			} else {
+				e = g.AxisPath(ctx, xgen.PathOpts{MaxSteps: 3, AbsShare: 4, DSlash: 2})
+			}
 		}
 		l := &harness.Live{Property: "C14", Check: "C14/names", Doc: doc, Ctx: ctx, AST: e, Expr: xast.Render(e), Flavour: flav}
 		switch config {
